@@ -3,6 +3,7 @@ package props
 import (
 	"bytes"
 	"context"
+	"encoding/json"
 	"fmt"
 	"net/http"
 	"strings"
@@ -42,12 +43,18 @@ func c18(env *core.Env) {
 	used := 0
 	var classes []string
 	dig := reg.Sha256([]byte("content"))
-	tr := &simnet.Transport{Env: env, Handler: http.HandlerFunc(func(http.ResponseWriter, *http.Request) {}), EOFWithData: c.Bool("eofdata", 1, 4), OneByteReads: c.Bool("onebyte", 1, 10), MaxExchanges: 400}
+	tr := &simnet.Transport{Env: env, Record: true, Handler: http.HandlerFunc(func(http.ResponseWriter, *http.Request) {}), EOFWithData: c.Bool("eofdata", 1, 4), OneByteReads: c.Bool("onebyte", 1, 10), MaxExchanges: 400}
 	// What the peer does once its script is used up: the network fails, or (a
 	// stateless peer) it goes on giving its last answer to whatever it is asked.
 	sticky := c.Bool("sticky-last-answer", 1, 4)
 	stickyServed := 0
 	var lastAnswer *simnet.Response
+	// ... or it goes round its last two or three answers (pages that point at each other)
+	cycle := 1
+	if sticky {
+		cycle = c.Range("sticky.cycle", 1, 3)
+	}
+	var answers []*simnet.Response
 	tr.OmitRequest = c.Bool("response-without-request", 1, 6)
 	tr.Plan = func(req *http.Request) simnet.Fault {
 		if used >= scriptLen && !(sticky && lastAnswer != nil && stickyServed < 60) {
@@ -58,9 +65,11 @@ func c18(env *core.Env) {
 	var generate func(req *http.Request, resp *simnet.Response)
 	tr.Mutate = func(req *http.Request, resp *simnet.Response) {
 		if used >= scriptLen && lastAnswer != nil {
+			k := min(cycle, len(answers))
+			again := answers[len(answers)-k+stickyServed%k]
 			stickyServed++
-			cp := *lastAnswer
-			cp.Header = lastAnswer.Header.Clone()
+			cp := *again
+			cp.Header = again.Header.Clone()
 			*resp = cp
 			return
 		}
@@ -68,9 +77,43 @@ func c18(env *core.Env) {
 		cp := *resp
 		cp.Header = resp.Header.Clone()
 		lastAnswer = &cp
+		answers = append(answers, &cp)
 	}
+	// "paging game": well-formed list pages over a tiny alphabet whose Link headers
+	// point among a handful of pages, so that pages pointing at each other, at
+	// themselves or nowhere come up all the time
+	pagingGame := c.Bool("paging-game", 1, 4)
 	generate = func(req *http.Request, resp *simnet.Response) {
 		used++
+		if pagingGame {
+			resp.Status = 200
+			h := http.Header{"Content-Type": {"application/json"}}
+			alphabet := []string{"a", "b", "c", "d"}
+			var items []string
+			for i, n := 0, c.Int("game.items", 4); i < n; i++ {
+				items = append(items, alphabet[c.Int("game.item", len(alphabet))])
+			}
+			if items == nil {
+				items = []string{}
+			}
+			doc, _ := json.Marshal(map[string]any{"name": "foo", "tags": items, "repositories": items})
+			if l := c.Int("game.link", 7); l > 0 {
+				path := req.URL.Path
+				h.Set("Link", []string{
+					"<" + path + "?last=a&n=1>; rel=\"next\"",
+					"<" + path + "?last=b&n=1>; rel=\"next\"",
+					"<" + path + "?n=1&last=a>; rel=\"next\"",
+					"<?last=c>; rel=\"next\"",
+					"<" + path + "?page=2>; rel=\"next\"",
+					"<" + path + "?page=1>; rel=\"prev\", <" + path + "?page=3>; rel=\"next\"",
+				}[l-1])
+			}
+			h.Set("Content-Length", fmt.Sprint(len(doc)))
+			resp.Header, resp.Body, resp.BodyErr, resp.DeclaredLen, resp.SetRawCL = h, doc, nil, int64(len(doc)), false
+			classes = append(classes, fmt.Sprintf("game:%d:%s", len(items), h.Get("Link")))
+			env.Fault("adversarial-response")
+			return
+		}
 		h := http.Header{}
 		resp.Header = h
 		// status
@@ -271,10 +314,25 @@ func c18(env *core.Env) {
 	if !sticky && tr.Seq() > scriptLen+calls {
 		env.Failf("C18/unbounded-requests/"+opName, "%s issued %d requests although the server's script had only %d answers and the network failed afterwards (budget: script + %d)", opName, tr.Seq(), scriptLen, calls)
 	}
-	if sticky && stickyServed >= 60 {
+	isListing := opName == "Repositories" || opName == "Tags" || opName == "Referrers"
+	if sticky && isListing {
+		// A peer that goes on for ever is not "finite answers"; what the client owes it is
+		// not to ask for the same page again and again (a page it has not asked for yet
+		// counts as progress, however pointless the peer's game).
+		asked := map[string]int{}
+		for _, e := range tr.Log {
+			if e.Status/100 != 2 {
+				continue // (redirect chains are net/http's business: it gives up after ten)
+			}
+			asked[e.Method+" "+e.URL]++
+			if asked[e.Method+" "+e.URL] > 2 {
+				env.Failf("C18/no-progress/"+opName, "%s asked for %s %d times; the peer goes round its last %d answer(s) after %d scripted ones", opName, e.URL, asked[e.Method+" "+e.URL], min(cycle, len(answers)), scriptLen)
+			}
+		}
+	} else if sticky && stickyServed >= 60 {
 		// (net/http follows at most 10 redirects per request; a writer sequence is a
 		// handful of requests; nothing legitimately asks sixty times for the same answer)
-		env.Failf("C18/no-progress/"+opName, "%s kept asking a peer that gives the same answer every time: %d requests after its %d scripted answers, the last ones all answered alike", opName, stickyServed, scriptLen)
+		env.Failf("C18/no-progress/"+opName, "%s kept asking a peer that goes round its last %d answer(s): %d requests after its %d scripted answers", opName, min(cycle, len(answers)), stickyServed, scriptLen)
 	}
 }
 
